@@ -65,6 +65,12 @@ def h_roundtrip(ctx, n, twin=False):
     ctx.holds("unpack of a bytearray: view then pack reproduces the octets", e is None and sym_and(
         u2.to_space_packet().pack() == raw, u2.pack() == raw, u2 == t), exc_name(e))
     pack_hands_out_fresh_buffers(ctx, t.pack, refb)
+    # the packet followed by further octets (a receive buffer holding more than one packet) decodes to the same object
+    tail = ctx.octets("tail", 3)
+    e, u3 = call(PusTc.unpack, ctx.bytes_of(ref + items_of(tail)))
+    ctx.holds("unpack from a longer buffer: same packet, same stored CRC, same octets", e is None and sym_and(
+        u3 == t, u3.app_data == data, u3.crc16 == ctx.bytes_of(ref[-2:]), u3.pack(recalc_crc=False) == raw, u3.pack() == raw,
+        u3.packet_len == total), exc_name(e))
     # alternative constructor; a decoded packet equals a freshly built, never packed one
     from spacepackets.ccsds.spacepacket import SpacePacketHeader, PacketType
     alt = PusTc.from_sp_header(SpacePacketHeader(packet_type=PacketType.TC, apid=apid, seq_count=sc, data_len=0), svc, sub, data, src, ack)
@@ -135,6 +141,10 @@ def h_reject(ctx, L):
         u.source_id == ((b[9] << 8) | b[10])))
     ctx.holds("app data == octets 11..declared-2", u.app_data == data[11:d - 2])
     ctx.holds("crc valid over declared octets", crc16(ctx, b[:d]) == 0)
+    # what is accepted re-packs to exactly its declared octets, whatever follows them in the buffer
+    ctx.holds("stored crc16 == the declared packet's trailer", u.crc16 == data[d - 2:d])
+    ctx.holds("re-pack (stored CRC) == declared octets", call(lambda: u.pack(recalc_crc=False) == data[:d])[1])
+    # (re-packing with a recomputed CRC is covered by the round-trip family, where the trailer is CRC(body) syntactically)
     ctx.holds("pus version 2", (b[6] >> 4) == 2)
 
 
